@@ -130,11 +130,11 @@ def shards(tier, seed):
         for fn in (True, False):
             out.append({'tier': tier, 'seed': seed, 'n': 2, 'first': list(first), 'final_newline': fn})
     n3 = []
+    # NB: the shard count is kept well below 40 x (number of worker processes): the runner's pool recycles a worker
+    # after 40 tasks and CPython 3.12.1 does not respawn it reliably (gh-115634)
     for first in sh:
-        for second_len in range(1, b['L'] + 1):
-            for fn in (True, False):
-                n3.append({'tier': tier, 'seed': seed, 'n': 3, 'first': list(first), 'second_len': second_len,
-                           'final_newline': fn})
+        for fn in (True, False):
+            n3.append({'tier': tier, 'seed': seed, 'n': 3, 'first': list(first), 'final_newline': fn})
     # simplest first (so that the first exemplar of a failure group is a small file); the seed only rotates the
     # order of the 3-record shards, never what is enumerated
     r = seed % max(1, len(n3))
@@ -715,8 +715,7 @@ def files_of_shard(desc):
         seqs = [(s,) for s in sh]
     else:
         first = tuple(desc['first'])
-        seqs = [(first,) + rest for rest in itertools.product(sh, repeat=n - 1)
-                if n == 2 or rest[0][0] == desc['second_len']]
+        seqs = [(first,) + rest for rest in itertools.product(sh, repeat=n - 1)]
     for shape_seq in seqs:
         schemes = ['plain', 'desc'] + (['mixed'] if n >= 2 else [])
         for scheme in schemes:
